@@ -78,11 +78,36 @@ func (h *httpStore) Close() error {
 	return nil
 }
 
+// NewHTTPStore is the "http" node outside a tree: the protocol handlers over kid, a pkg/client in front.
+// tamper, if non-nil, may rewrite the body of every upload response (a peer that misreports).
+func NewHTTPStore(kid blobserver.Storage, withHaveCache bool, tamper func(body []byte) []byte) (blobserver.Storage, error) {
+	return newHTTPStoreT(kid, withHaveCache, tamper)
+}
+
 func newHTTPStore(kid blobserver.Storage, withHaveCache bool) (blobserver.Storage, error) {
+	return newHTTPStoreT(kid, withHaveCache, nil)
+}
+
+func newHTTPStoreT(kid blobserver.Storage, withHaveCache bool, tamper func(body []byte) []byte) (blobserver.Storage, error) {
 	sc := configuredStorage{kid}
 	const pfx = "/bs"
 	mux := http.NewServeMux()
-	mux.Handle(pfx+"/camli/upload", handlers.CreateBatchUploadHandler(sc))
+	upload := handlers.CreateBatchUploadHandler(sc)
+	if tamper != nil {
+		real := upload
+		upload = http.HandlerFunc(func(w http.ResponseWriter, r *http.Request) {
+			rec := httptest.NewRecorder()
+			real.ServeHTTP(rec, r)
+			for k, v := range rec.Header() {
+				if k != "Content-Length" {
+					w.Header()[k] = v
+				}
+			}
+			w.WriteHeader(rec.Code)
+			w.Write(tamper(rec.Body.Bytes()))
+		})
+	}
+	mux.Handle(pfx+"/camli/upload", upload)
 	mux.Handle(pfx+"/camli/stat", handlers.CreateStatHandler(sc))
 	mux.Handle(pfx+"/camli/enumerate-blobs", handlers.CreateEnumerateHandler(sc))
 	mux.Handle(pfx+"/camli/remove", handlers.CreateRemoveHandler(sc))
